@@ -1,4 +1,4 @@
-import P2sh.Core.Encode
+import P2sh.Core.EncodeL
 import P2sh.Core.Checked
 import P2sh.Driver.Sexp
 /-! Driver for op `core <hex src> @@ <sexp>`: the functional compiler model of the core fragment,
@@ -12,25 +12,36 @@ def run (line : String) : String :=
     match readProgram sx with
     | none => result "MODEL-SKIP" "any"
     | some p =>
-      match ofStmts 400 0 [] p.stmts with
+      -- the fragment with the parser's line numbers kept (C13); forgetting them gives exactly
+      -- `ofStmts` (theorem `Core.eraseP_ofStmtsL`)
+      match ofStmtsL 400 0 [] p.stmts with
       | none => result "MODEL-SKIP" "any"       -- outside the core fragment
-      | some (ss, nglobals, _) =>
+      | some (ssL, nglobals, _) =>
+        let ss := eraseP ssL
         let code := compileP 0 0 ss
         -- the compiler's overflow check: an operand that does not fit its width is a compile error
         if !(code.all fitsI) then result "cerr" "eq cerr" else
         let pool := constsP ss
+        -- `Instructions.lines`: the per-instruction line table, one entry per code byte
+        let lines := byteLines code (lineTableP ssL)
         let codeS := natList (encode code)
+        let linesS := natList lines
         let poolS := joinWith "|" (pool.map encVal)
         let g0 : List Val := List.replicate nglobals .null
         let gsS (g : List Val) : String := joinWith "," (g.map encVal)
-        -- the machine (model of the VM on this code)
-        let model := match runMachine code pool 100000 ⟨0, [], g0⟩ with
-          | some st => s!"code={codeS} consts=[{poolS}] ok g=[{gsS st.g}] last=* sp={st.stk.length}"
-          | none => s!"code={codeS} consts=[{poolS}] rterr"
-        -- the reference evaluation (specification)
+        -- the machine (model of the VM on this code); a runtime error reports `lines[ip]`
+        let model := match runMachineL code pool 100000 ⟨0, [], g0⟩ with
+          | .done st => s!"code={codeS} lines={linesS} consts=[{poolS}] ok g=[{gsS st.g}] last=* sp={st.stk.length}"
+          | .stuck st => s!"code={codeS} lines={linesS} consts=[{poolS}] rterr {(lines[st.pc]?).getD 0}"
+          | .oof => s!"code={codeS} lines={linesS} consts=[{poolS}] oof"
+        -- the reference evaluation (specification): the final globals, or the line of the
+        -- node whose operation fails (`failLine`; theorem `Props.C13.fail_line_program`)
         let spec := match evalP 20000 g0 ss with
-          | some g => s!"m code=* consts=* ok g=[{gsS g}] last=* sp=0"
-          | none => "m code=* consts=* rterr"
+          | some g => s!"m code=* lines=* consts=* ok g=[{gsS g}] last=* sp=0"
+          | none =>
+            match failLineP 20000 g0 ssL with
+            | some l => s!"m code=* lines=* consts=* rterr {l}"
+            | none => "m code=* lines=* consts=* rterr *"
         result model spec
   | _ => "bad-op"
 
